@@ -332,6 +332,9 @@ R4_RULES = [
      r'.vx_second_collect()', None),
     ('R4-chain3', r'(?P<a>\w+)\s*\.\s*payload\s*\.\s*iter\(\)\s*\.\s*cloned\(\)\s*\.\s*chain\(\s*(?P<b>\w+)\.payload\.iter\(\)\.cloned\(\)\s*\)\s*\.\s*chain\(\s*(?P<c>\w+)\.payload\.iter\(\)\.cloned\(\)\s*\)\s*\.\s*collect\(\)',
      r'vx_chain3_collect(&\g<a>.payload, &\g<b>.payload, &\g<c>.payload)', None),
+    ('R4-pair-with-clone', r'(?P<e>\b\w+)\s*\.\s*iter\(\)\s*\.\s*cloned\(\)\s*\.\s*map\(\s*\|x\|\s*\(x,\s*(?P<s>\w+)\.clone\(\)\)\s*\)\s*\.\s*collect\(\)', r'vx_pair_with_clone(&\g<e>, &\g<s>)', None),
+    ('R4-retain-round-gt', r'(?P<e>\b\w+)\s*\.\s*retain\(\s*\|_,\s*\(r,\s*_\)\|\s*r\s*>\s*&mut\s+(?P<r>\w+)\s*\)', r'vx_retain_round_gt(&mut \g<e>, \g<r>)', None),
+    ('R4-map-const', r'\.\s*map\s*\(\s*\|\s*_\s*\|\s*(?P<v>Some\s*\(\s*\w+\s*\)|\w+)\s*\)', r'.vx_map_const(\g<v>)', None),
     ('R11-eta', r'\.\s*map_err\s*\(\s*(?P<c>[A-Z]\w*::[A-Z]\w*)\s*\)', r'.map_err(|e| \g<c>(e))', None),
     ('R4-map-unwrap', r'(?P<e>\b\w+)\s*\.\s*map\s*\(\s*\|\s*x\s*\|\s*x\s*\.\s*unwrap\s*\(\s*\)\s*\)', r'vx_map_unwrap(\g<e>)', None),
     ('R4-oneshot-await', r'\b(?P<x>receiver|wait_for)\s*\.\s*await', r'\g<x>.vx_recv().await', None),
